@@ -390,6 +390,40 @@ pub fn dump_json(d: &StateDump, u: &Universe, listing: Vec<String>, root: &str) 
     })
 }
 
+/// What the database reports about its table layout through the PUBLIC descriptors:
+/// NumFilesAtLevel(l) for every level and the SSTables text, parsed into per-level lists of
+/// [file number, size] (the key ranges are printed in Debug form and are not parsed).
+pub fn descriptor_view(db: &DB) -> Result<(Vec<u64>, Vec<Vec<[u64; 2]>>), String> {
+    use raindb::db::DatabaseDescriptor as D;
+    let mut nfl = vec![];
+    for level in 0..7 {
+        let t = db.get_descriptor(D::NumFilesAtLevel(level)).map_err(|e| e.to_string())?;
+        nfl.push(t.trim().parse::<u64>().map_err(|e| format!("NumFilesAtLevel text {:?}: {}", t, e))?);
+    }
+    let text = db.get_descriptor(D::SSTables).map_err(|e| e.to_string())?;
+    let mut sst: Vec<Vec<[u64; 2]>> = vec![];
+    for line in text.lines() {
+        if line.starts_with("--- Level") {
+            sst.push(vec![]);
+            continue;
+        }
+        if line.is_empty() {
+            continue;
+        }
+        // "<number> (size: <size>)[<smallest>..<largest>]"
+        let num: String = line.chars().take_while(|c| c.is_ascii_digit()).collect();
+        let size: String = match line.find("(size: ") {
+            Some(i) => line[i + 7..].chars().take_while(|c| c.is_ascii_digit()).collect(),
+            None => String::new(),
+        };
+        match (num.parse::<u64>(), size.parse::<u64>(), sst.last_mut()) {
+            (Ok(n), Ok(sz), Some(l)) => l.push([n, sz]),
+            _ => return Err(format!("SSTables line not understood: {:?}", line)),
+        }
+    }
+    Ok((nfl, sst))
+}
+
 /// Wait until no background work is scheduled or pending. Returns the final dump, or None on
 /// timeout.
 pub fn wait_quiescent(db: &DB, timeout: Duration) -> Option<StateDump> {
